@@ -63,7 +63,7 @@ def auto(fn, args, B):
         y, x = args
         r = app(_f(B, 'atan2', 2), y, x)
         out.append(PI_BOUNDS)
-        out.append(land(app('<=', '(- pi)', r), app('<=', r, 'pi')))
+        out.append(land(app('<', '(- pi)', r), app('<=', r, 'pi')))   # real atan2 ranges over (-pi, pi]
         # (x,y) != 0  =>  sin(r) * rho = y, cos(r) * rho = x with rho = sqrt(x^2+y^2) > 0
         rho = app(_f(B, 'sqrt'), add(mul(x, x), mul(y, y)))
         s, c = app(_f(B, 'sin'), r), app(_f(B, 'cos'), r)
